@@ -65,6 +65,42 @@ impl Distribution<PushGene> for TagGen {
     }
 }
 
+/// the user-defined genome of `GenomeKind::Queue`
+#[derive(Clone, Debug, PartialEq)]
+pub struct Queue {
+    genes: std::collections::VecDeque<Gene>,
+}
+impl ec_core::genome::Genome for Queue {
+    type Gene = Gene;
+}
+impl ec_linear::genome::Linear for Queue {
+    fn size(&self) -> usize {
+        self.genes.len()
+    }
+    fn gene_mut(&mut self, index: usize) -> Option<&mut Gene> {
+        self.genes.get_mut(index)
+    }
+}
+pub struct Drain(std::collections::VecDeque<Gene>);
+impl Iterator for Drain {
+    type Item = Gene;
+    fn next(&mut self) -> Option<Gene> {
+        self.0.pop_front()
+    }
+}
+impl IntoIterator for Queue {
+    type Item = Gene;
+    type IntoIter = Drain;
+    fn into_iter(self) -> Drain {
+        Drain(self.genes)
+    }
+}
+impl FromIterator<Gene> for Queue {
+    fn from_iter<I: IntoIterator<Item = Gene>>(iter: I) -> Self {
+        Queue { genes: iter.into_iter().collect() }
+    }
+}
+
 #[derive(Clone, Copy, Debug, PartialEq, Eq)]
 pub enum UmadKind {
     /// `Umad::new(a, d, gen)`: the empty-genome rate is the addition rate
@@ -85,6 +121,9 @@ pub fn mk_umad<G>(kind: UmadKind, a: f64, d: f64, gen: G) -> Umad<G> {
 
 #[derive(Clone, Copy, Debug, PartialEq, Eq)]
 pub enum GenomeKind {
+    /// a genome type of the user's own: a queue whose iterator implements `next` only (no size hint, no
+    /// exact size) - `Linear`, `IntoIterator` and `FromIterator` are all the mutators may rely on
+    Queue,
     Vector,
     Plushy,
     Bits,
@@ -98,6 +137,12 @@ pub fn umad_once(gk: GenomeKind, kind: UmadKind, a: f64, d: f64, g: usize, l: us
     let gen = TagGen { g, serial: Cell::new(0) };
     let mut rng = ChoiceRng::new(env, alpha);
     mcx::guarded(|| match gk {
+        GenomeKind::Queue => {
+            let m = mk_umad(kind, a, d, &gen);
+            let parent: Queue = (0..l).map(Gene::Old).collect();
+            let out = if via_operator { Mutate::new(&m).apply(parent, &mut rng).unwrap() } else { m.mutate(parent, &mut rng).unwrap() };
+            (out.genes.into_iter().collect(), gen.serial.get())
+        }
         GenomeKind::Vector => {
             let m = mk_umad(kind, a, d, &gen);
             // (odd lengths: held in a buffer with spare capacity)
@@ -768,7 +813,7 @@ pub fn cases(quick: bool) -> Vec<Case> {
             }
         }
     }
-    for gk in [GenomeKind::Vector, GenomeKind::Plushy, GenomeKind::PlushyClose, GenomeKind::Bits] {
+    for gk in [GenomeKind::Vector, GenomeKind::Queue, GenomeKind::Plushy, GenomeKind::PlushyClose, GenomeKind::Bits] {
         for l in 0..=max_l {
             for a in &rates {
                 for d in &rates {
@@ -844,7 +889,7 @@ pub fn run(run: &mut Run) {
     run.states = cs.len() as u64;
     run.traces_validated = run.evaluations;
     run.distinct_nontrivial = nontrivial;
-    run.rule = "WithRate / WithOneOverLength on Vec<TagBit>, Vector<TagBit>, Bitstring (each also held in a buffer with spare capacity) and through Mutate; Umad (new / new_with_empty_rate / new_without_empty) on Vector<Gene>, Plushy (instruction genes, and parents whose even positions are close markers) and Bitstring, through &, by value and through Mutate; all parent lengths 0..L, all lattice rates, all grid word sequences, and (lengths <= 3 for flips, <= 2 for UMAD) all sequences over the grid plus the extreme words 0 and all-ones; plus UMAD on long parents (64..257, thorough 31..300) under every stream with at most 1 (2) non-default words, and on parents of 1000..65537 genes with the deviation among the first 24 words; the flip mutators on genomes of 9..70, around 128 and 256, 1000, 4097, 65537 genes (thorough every length up to 300 and more) on every stream with at most one non-default word among the first 24; plus one Umad::new_with_empty_rate value applied to an empty and a non-empty parent in either order (all lattice rates for the three parameters; parents of 1, 2 (whole tree) and 37 genes (every stream with at most one non-default word)), both outputs judged; structural oracle on every leaf (positions preserved, subsequence order, at most one insertion per parent position, provenance of new genes, boundary rates). non-trivial = scenarios with more than one distinct output".into();
+    run.rule = "WithRate / WithOneOverLength on Vec<TagBit>, Vector<TagBit>, Bitstring (each also held in a buffer with spare capacity) and through Mutate; Umad (new / new_with_empty_rate / new_without_empty) on Vector<Gene>, a user-defined queue genome whose iterator has no size hint, Plushy (instruction genes, and parents whose even positions are close markers) and Bitstring, through &, by value and through Mutate; all parent lengths 0..L, all lattice rates, all grid word sequences, and (lengths <= 3 for flips, <= 2 for UMAD) all sequences over the grid plus the extreme words 0 and all-ones; plus UMAD on long parents (64..257, thorough 31..300) under every stream with at most 1 (2) non-default words, and on parents of 1000..65537 genes with the deviation among the first 24 words; the flip mutators on genomes of 9..70, around 128 and 256, 1000, 4097, 65537 genes (thorough every length up to 300 and more) on every stream with at most one non-default word among the first 24; plus one Umad::new_with_empty_rate value applied to an empty and a non-empty parent in either order (all lattice rates for the three parameters; parents of 1, 2 (whole tree) and 37 genes (every stream with at most one non-default word)), both outputs judged; structural oracle on every leaf (positions preserved, subsequence order, at most one insertion per parent position, provenance of new genes, boundary rates). non-trivial = scenarios with more than one distinct output".into();
     run.bound("max_parent_length", json!(if run.quick() { 3 } else { 4 }));
     run.bound("rates", json!(if run.quick() { "{0, 1/2, 1, 2}" } else { "{0, 1/4, 1/2, 3/4, 1, 2}" }));
     run.assumptions = vec!["structure is rate independent: lattice rates reach both outcomes of every coin".into()];
@@ -877,7 +922,7 @@ pub fn replay(v: &Value) -> bool {
             Case::UmadLong(gk, pair(&v["a"]), pair(&v["d"]), l, v["dev"].as_u64().unwrap_or(1) as usize)
         }
         Some("umad") => {
-            let gk = [GenomeKind::Vector, GenomeKind::Plushy, GenomeKind::PlushyClose, GenomeKind::Bits]
+            let gk = [GenomeKind::Vector, GenomeKind::Queue, GenomeKind::Plushy, GenomeKind::PlushyClose, GenomeKind::Bits]
                 .into_iter()
                 .find(|k| Some(format!("{k:?}").as_str()) == v["genome"].as_str())
                 .unwrap_or(GenomeKind::Vector);
